@@ -75,6 +75,7 @@ type Gen struct {
 	curBlock *ssa.BasicBlock
 	oldFrontier string
 	inlineDepth int
+	entryPrefix int
 }
 
 type retPoint struct {
@@ -152,7 +153,11 @@ func (g *Gen) safety(kind string, st *State, goal string, pos token.Pos) {
 	if g.ct != nil && !g.ct.NoPanic {
 		return
 	}
-	g.addObl(kind, g.srcLine(pos), st, goal, pos)
+	label := g.srcLine(pos)
+	if label == "" {
+		label = "(synthetic)"
+	}
+	g.addObl(kind, label, st, goal, pos)
 	// after the check the execution continues only if it held
 	g.sc.assume(st.pc, goal)
 }
@@ -592,7 +597,7 @@ func (g *Gen) mapLenOf(st *State, mt *types.Map, m string) string {
 	key := "card:" + ln + dom
 	if !g.sc.declared[key] {
 		g.sc.declared[key] = true
-		g.sc.emit("(assert (>= %s 0))", ln)
+		g.sc.emit("(assert (and (>= %s 0) (<= %s 9223372036854775807)))", ln, ln)
 		g.sc.emit("(assert (forall ((a %s)) (! (=> (select %s a) (>= %s 1)) :pattern ((select %s a)))))", ks, dom, ln, dom)
 		g.sc.emit("(assert (forall ((a %s) (b %s)) (! (=> (and (select %s a) (select %s b) (not (= a b))) (>= %s 2)) :pattern ((select %s a) (select %s b)))))", ks, ks, dom, dom, ln, dom, dom)
 		g.sc.emit("(assert (=> (>= %s 1) (exists ((a %s)) (select %s a))))", ln, ks, dom)
@@ -731,6 +736,7 @@ func (g *Gen) Run() {
 		}
 	}
 	g.entry = st.clone()
+	g.entryPrefix = len(g.sc.lines)
 
 	// reverse postorder ignoring back edges
 	order := g.rpo()
@@ -889,16 +895,93 @@ func (g *Gen) processBlock(b *ssa.BasicBlock, entrySt *State) {
 	}
 }
 
-// havocLoop forgets everything the loop may modify.
+// havocLoop forgets everything the loop may modify. For heap tags whose writes in the
+// loop all go to objects that are identifiable at the loop head (or are allocated inside
+// the loop), a frame fact keeps the cells of all other pre-existing objects.
+type tagWrites struct {
+	roots   map[string]bool // terms (rb ...) of written objects known at the loop head
+	unknown bool
+}
+
 func (g *Gen) havocLoop(li *loopInfo, st *State) {
 	all := false
-	tags := map[string]bool{}
+	tags := map[string]*tagWrites{}
+	touch := func(tag string) *tagWrites {
+		w := tags[tag]
+		if w == nil {
+			w = &tagWrites{roots: map[string]bool{}}
+			tags[tag] = w
+		}
+		return w
+	}
 	locals := map[*ssa.Alloc]bool{}
 	var blocks []*ssa.BasicBlock
 	for b := range li.blocks {
 		blocks = append(blocks, b)
 	}
 	sort.Slice(blocks, func(i, j int) bool { return blocks[i].Index < blocks[j].Index })
+	outside := func(v ssa.Value) bool {
+		ins, ok := v.(ssa.Instruction)
+		if !ok {
+			return true
+		}
+		return !li.blocks[ins.Block()] && ins.Block().Dominates(li.header)
+	}
+	// rootOf: "(rb ...)" term of the object an address points into; "" = allocated inside the loop; "?" = unknown
+	var rootOf func(v ssa.Value) string
+	rootOf = func(v ssa.Value) string {
+		switch x := v.(type) {
+		case *ssa.FieldAddr:
+			return rootOf(x.X)
+		case *ssa.IndexAddr:
+			if _, isSlice := x.X.Type().Underlying().(*types.Slice); isSlice {
+				if outside(x.X) {
+					if _, ok := g.val[x.X]; ok || isConstLike(x.X) {
+						return fmt.Sprintf("(rb (sarr %s))", g.term(x.X))
+					}
+				}
+				switch x.X.(type) {
+				case *ssa.MakeSlice:
+					return ""
+				}
+				if c, ok := x.X.(*ssa.Call); ok {
+					if b, ok := c.Call.Value.(*ssa.Builtin); ok && b.Name() == "append" {
+						return ""
+					}
+				}
+				return "?"
+			}
+			return rootOf(x.X)
+		case *ssa.Alloc:
+			if outside(x) {
+				if t, ok := g.val[x]; ok {
+					return fmt.Sprintf("(rb %s)", t)
+				}
+				return "?"
+			}
+			return ""
+		case *ssa.Global:
+			return fmt.Sprintf("(rb %s)", g.globalRef(x))
+		}
+		if outside(v) {
+			if _, ok := g.val[v]; ok {
+				return fmt.Sprintf("(rb %s)", g.term(v))
+			}
+		}
+		return "?"
+	}
+	note := func(tagset map[string]bool, root string) {
+		for t := range tagset {
+			w := touch(t)
+			switch root {
+			case "?":
+				w.unknown = true
+			case "":
+			default:
+				w.roots[root] = true
+			}
+		}
+	}
 	for _, b := range blocks {
 		for _, ins := range b.Instrs {
 			switch x := ins.(type) {
@@ -907,41 +990,61 @@ func (g *Gen) havocLoop(li *loopInfo, st *State) {
 					locals[p.alloc] = true
 					continue
 				}
-				g.collectStoreTags(x.Addr, x.Val.Type(), tags)
+				ts := map[string]bool{}
+				g.collectStoreTags(x.Addr, x.Val.Type(), ts)
+				note(ts, rootOf(x.Addr))
 			case *ssa.MapUpdate:
 				mt := x.Map.Type().Underlying().(*types.Map)
 				d, v, l := g.mapTags(mt)
-				tags[d], tags[v], tags[l] = true, true, true
+				root := "?"
+				if outside(x.Map) {
+					if _, ok := g.val[x.Map]; ok {
+						root = fmt.Sprintf("(rb %s)", g.term(x.Map))
+					}
+				} else if _, isMake := x.Map.(*ssa.MakeMap); isMake {
+					root = ""
+				}
+				note(map[string]bool{d: true, v: true, l: true}, root)
 			case *ssa.Alloc, *ssa.MakeMap, *ssa.MakeSlice, *ssa.MakeClosure, *ssa.MakeInterface:
-				tags["!frontier"] = true
+				touch("!frontier")
 				if a, ok := x.(*ssa.Alloc); ok {
 					if g.escape[a] {
-						g.collectStoreTags(a, a.Type().Underlying().(*types.Pointer).Elem(), tags)
+						ts := map[string]bool{}
+						g.collectStoreTags(a, a.Type().Underlying().(*types.Pointer).Elem(), ts)
+						note(ts, "")
 					} else {
 						locals[a] = true
 					}
 				}
 				if mm, ok := x.(*ssa.MakeMap); ok {
 					d, v, l := g.mapTags(mm.Type().Underlying().(*types.Map))
-					tags[d], tags[v], tags[l] = true, true, true
+					note(map[string]bool{d: true, v: true, l: true}, "")
 				}
 				if ms, ok := x.(*ssa.MakeSlice); ok {
-					g.collectElemTags(ms.Type().Underlying().(*types.Slice).Elem(), tags)
+					ts := map[string]bool{}
+					g.collectElemTags(ms.Type().Underlying().(*types.Slice).Elem(), ts)
+					note(ts, "")
 				}
 			case *ssa.Range:
-				tags[g.visTag(x)] = true
+				touch(g.visTag(x)).unknown = true
 			case ssa.CallInstruction:
+				if bi, ok := x.Common().Value.(*ssa.Builtin); ok && bi.Name() == "append" {
+					// append writes only a fresh backing array
+					ts, _ := g.calleeModTags(x)
+					note(ts, "")
+					touch("!frontier")
+					continue
+				}
 				mods, modAll := g.calleeModTags(x)
 				if modAll {
 					all = true
 				}
-				for t := range mods {
-					tags[t] = true
-				}
-				tags["!frontier"] = true
+				note(mods, "?")
+				touch("!frontier")
 			}
 		}
 	}
+	entryFrontier := g.frontier(st)
 	if all {
 		g.havocAll(st)
 	}
@@ -958,18 +1061,42 @@ func (g *Gen) havocLoop(li *loopInfo, st *State) {
 			st.mem[t] = nf
 			continue
 		}
-		if _, ok := g.sc.tagSort[t]; !ok {
+		srt, ok := g.sc.tagSort[t]
+		if !ok {
 			continue
 		}
 		if all && !strings.HasPrefix(t, "V!") {
 			continue
 		}
+		old := g.sc.lookup(st, t)
 		g.havocTag(st, t)
+		w := tags[t]
+		if !w.unknown && strings.HasPrefix(srt, "(Array Ref ") {
+			cond := fmt.Sprintf("(< (rb r) %s)", entryFrontier)
+			var roots []string
+			for r := range w.roots {
+				roots = append(roots, r)
+			}
+			sort.Strings(roots)
+			for _, r := range roots {
+				cond = fmt.Sprintf("(and %s (not (= (rb r) %s)))", cond, r)
+			}
+			nw := st.mem[t]
+			g.sc.emit("(assert (forall ((r Ref)) (! (=> %s (= (select %s r) (select %s r))) :pattern ((select %s r)))))", cond, nw, old, nw)
+		}
 	}
 	for a := range locals {
 		et := a.Type().Underlying().(*types.Pointer).Elem()
 		st.locals[a] = g.freshOf("loc_"+a.Comment, et)
 	}
+}
+
+func isConstLike(v ssa.Value) bool {
+	switch v.(type) {
+	case *ssa.Const, *ssa.Global, *ssa.Parameter, *ssa.FreeVar:
+		return true
+	}
+	return false
 }
 
 func (g *Gen) collectElemTags(t types.Type, tags map[string]bool) {
@@ -1064,6 +1191,17 @@ func (g *Gen) invariantTerms(li *loopInfo, st *State, phiVals map[*ssa.Phi]strin
 			}
 			terms = append(terms, fmt.Sprintf("(>= %s (- 1))", pv))
 			clauses = append(clauses, &Clause{Kind: "invariant", Label: "auto-rangeindex", Text: "rangeindex >= -1"})
+			// rangeindex < n where the header tests  rangeindex+1 < n
+			if iff, ok := li.header.Instrs[len(li.header.Instrs)-1].(*ssa.If); ok {
+				if cmp, ok := iff.Cond.(*ssa.BinOp); ok && cmp.Op == token.LSS {
+					if add, ok := cmp.X.(*ssa.BinOp); ok && add.X == phi {
+						if nins, isIns := cmp.Y.(ssa.Instruction); !isIns || (nins.Block() != li.header && nins.Block().Dominates(li.header)) {
+							terms = append(terms, fmt.Sprintf("(< %s %s)", pv, g.term(cmp.Y)))
+							clauses = append(clauses, &Clause{Kind: "invariant", Label: "auto-rangeindex-upper", Text: "rangeindex < n"})
+						}
+					}
+				}
+			}
 		}
 	}
 	if lc := g.loopContract(li); lc != nil {
